@@ -262,7 +262,9 @@ func (f *formatter) writeFileHeader() {
 	if packageNode != nil {
 		f.writePackage(packageNode)
 	}
-	sort.Slice(importNodes, func(i, j int) bool {
+	// The sort must be stable: imports that compare equal (same file, same modifier, both
+	// commented) keep their source order.
+	sort.SliceStable(importNodes, func(i, j int) bool {
 		iName := importNodes[i].Name.AsString()
 		jName := importNodes[j].Name.AsString()
 		// sort by public > None > weak
@@ -283,7 +285,7 @@ func (f *formatter) writeFileHeader() {
 		}
 
 		// put commented import first
-		return !f.importHasComment(importNodes[j])
+		return f.importHasComment(importNodes[i]) && !f.importHasComment(importNodes[j])
 	})
 	for i, importNode := range importNodes {
 		if i == 0 && f.previousNode != nil && !f.leadingCommentsContainBlankLine(importNode) {
@@ -299,7 +301,9 @@ func (f *formatter) writeFileHeader() {
 
 		f.writeImport(importNode, i > 0)
 	}
-	sort.Slice(optionNodes, func(i, j int) bool {
+	// The sort must be stable: a repeated option may be set several times and the order
+	// of its values is part of the file's meaning.
+	sort.SliceStable(optionNodes, func(i, j int) bool {
 		// The default options (e.g. cc_enable_arenas) should always
 		// be sorted above custom options (which are identified by a
 		// leading '(').
